@@ -121,6 +121,52 @@ theorem C07_partial :
     have := hguard (r.func, d) hc
     simp at this
 
+/-- … and what that says for ALL shapes: in a returning row of a function outside the exclusion
+    list, for every result leaf the reference gives units to and every operand group, the exponent
+    the handler attaches evaluates to the reference degree in every valid call (every shape) — and
+    every leaf the reference calls unitless has all exponents zero -/
+theorem C07_partial_all_shapes (r : Row) (hr : r ∈ Generated.ruleRows)
+    (hguard : (Ref.exclC07.all fun e => e.1 != r.func) = true) (hnr : r.raised = false)
+    (specs : List Ref.LeafSpec) (hexp : Ref.expected r.callForm = .leaves specs) :
+    specs.length = r.leaves.length ∧
+    ∀ p ∈ specs.zip r.leaves,
+      (∀ l, p.1 = .units l → ∀ g ∈ r.groups, ∃ e, expectedExpo r l g = some e ∧
+          ∀ env, EnvValid env → (expoOf p.2.expo g).eval env = e.eval env)
+      ∧ (p.1 = .unitless → ∀ ge ∈ p.2.expo, ∀ env, EnvValid env → ge.2.eval env = some 0) := by
+  have hd := C07_partial r hr hguard
+  unfold rowDefects at hd
+  simp only [hnr, hexp, Bool.false_eq_true, if_false, List.append_eq_nil_iff] at hd
+  obtain ⟨hz, _⟩ := hd
+  by_cases ht : r.tailRepeats = true
+  · simp [ht] at hz
+  · simp only [ht] at hz
+    obtain ⟨hlen, hall⟩ := zipDefects_sound r specs r.leaves 0 hz
+    refine ⟨hlen, ?_⟩
+    intro p hp
+    obtain ⟨j, hj⟩ := hall p hp
+    refine ⟨?_, ?_⟩
+    · intro l hl g hg
+      rw [hl] at hj
+      obtain ⟨e, he, hs⟩ := leafDefects_units_sound r j l p.2 hj g hg
+      exact ⟨e, he, fun env hv => same_sound env hv _ _ hs⟩
+    · intro hl ge hge env hv
+      rw [hl] at hj
+      have hz0 := leafDefects_unitless_sound r j p.2 hj ge hge
+      have := same_sound env hv ge.2 (.const 0) hz0
+      simpa [Expo.eval] using this
+
+/-- the executable label (`Leaf.scale`, what the driver evaluates and the correspondence compares with
+    `units.base_value`) inherits covariance: whenever the exponents a leaf evaluates to are the
+    homogeneity degrees of the component, the labelled SI magnitude is invariant under re-expression -/
+theorem labelled_leaf_covariant {K : Type} [Lean.Grind.Field K] [RPow K] (P : K → Prop)
+    (laws : RPowLaws (RPow.rpow (K := K)) P) (leaf : Leaf) (env : Env) (d : List (String × Rat))
+    (hd : leaf.exponents env = some d) (u u' lam : String → K) (x x' : K)
+    (hpos : ∀ g, P (u' g) ∧ P (lam g)) (hconv : ∀ g, lam g * u' g = u g)
+    (hhom : x' = labelScale lam d * x) :
+    ∃ s s', leaf.scale u env = some s ∧ leaf.scale u' env = some s' ∧ s' * x' = s * x := by
+  refine ⟨labelScale u d, labelScale u' d, by simp [Leaf.scale, hd], by simp [Leaf.scale, hd], ?_⟩
+  exact degree_rule_covariant P laws u u' lam d x x' hpos hconv hhom
+
 /-- unyt violates the full statement on the unchanged tree -/
 theorem C07_counterexample : ¬ C07_full := by
   intro h
@@ -176,6 +222,12 @@ theorem prod_where_counterexample :
     here: instances of the table obligations -/
 example : (Generated.ruleRows.any fun r => r.func == "numpy.linalg.inv" && !r.raised
     && r.leaves.all (fun l => l.carries && l.expo == [("0", Expo.const (-1))]) && rowDefects r == []) = true := by
+  decide +kernel
+
+/-- `C07_partial_all_shapes` has instances: a returning, non-excluded row with a `leaves` reference -/
+example : (Generated.ruleRows.any fun r => r.func == "numpy.linalg.solve" && !r.raised
+    && (Ref.exclC07.all fun e => e.1 != r.func)
+    && (match Ref.expected r.callForm with | .leaves [.units _] => true | _ => false)) = true := by
   decide +kernel
 
 /-- the guard of `C07_partial` is met by most of the table -/
